@@ -340,7 +340,7 @@ static char *held[1200]; static int nheld;        /* name strings created by the
 #define NSALTN 25
 static int opt_len, opt_prune, opt_salts, opt_bin, opt_deep;
 static letter_t L[MAXL];
-static int nL;
+static int nL, nD;                            /* normal letters [0,nL), call_other-at-max-call-depth letters [nL,nL+nD) */
 static char *cold[MAXL];
 
 static object_t *caller_ob;
@@ -379,6 +379,7 @@ static char *do_call (object_t *o, int org, const char *name, char *shname) {
   char res[700];
   svalue_t *r = 0;
   int applied = 1;
+  svalue_t *sp0 = sp;
   reset_rlog ();
   switch (org) {
   case O_CO: {
@@ -420,6 +421,8 @@ static char *do_call (object_t *o, int org, const char *name, char *shname) {
     else if (!strncmp (hx_last_error, "*hx: no such function", 21)) snprintf (res, sizeof res, "NOFUN");
     else snprintf (res, sizeof res, "ERR:%.200s", hx_last_error);
   }
+  /* an error leaves the arguments pushed before the error context was saved (as safe_apply() does): drop them */
+  if (sp > sp0) pop_n_elems ((int) (sp - sp0));
   for (char *q = res; *q; q++) if (*q == '\n') *q = ' ';
   snprintf (out, sizeof obs[0], "%s|%s", res, get_rlog ());
   return out;
@@ -528,7 +531,7 @@ static void build_alphabet (void) {
     for (int org = 0; org < NORG; org++)
       for (int nm = 0; nm < NNAME; nm++) {
         if ((org == O_COLPC || org == O_DRVLIT || org == O_TRAMP || org == O_FP || org == O_DEEP) && nm != N_F) continue;
-        if (org == O_DEEP && (!opt_deep || ndeep <= 0)) continue;
+        if (org == O_DEEP) continue;            /* appended below: explored in a phase of their own */
         if ((org == O_TRAMP || org == O_FP) && !istop) continue;
         const prog_t *T = &S.p[S.top];
         if (S.graph != 5) {
@@ -538,6 +541,9 @@ static void build_alphabet (void) {
         L[nL].tgt = t; L[nL].name = nm; L[nL].org = org; nL++;
       }
   }
+  nD = 0;
+  if (opt_deep && S.graph != 5)
+    for (int t = 0; t < S.ntgt; t++) { L[nL + nD].tgt = t; L[nL + nD].name = N_F; L[nL + nD].org = O_DEEP; nD++; }
 }
 
 /* ------------------------------------------------------------------ oracles on cold results */
@@ -729,7 +735,7 @@ static void history_diff (int n, int i, const char *obs) {
   int refused_before = 0;
   for (int j = 0; j < i; j++) {
     const letter_t *p = &L[seq[j]];
-    if ((p->org == O_CO || p->org == O_COLPC) && p->name == l->name && tob[p->tgt]->prog == tob[l->tgt]->prog &&
+    if ((p->org == O_CO || p->org == O_COLPC || p->org == O_DEEP) && p->name == l->name && tob[p->tgt]->prog == tob[l->tgt]->prog &&
         S.p[S.tprog[p->tgt]].rdef >= 0 && !ran_f (cold[seq[j]]))
       refused_before = 1;
   }
@@ -748,8 +754,11 @@ static void ref_snapshot (void) {
   nref = 0;
   for (int i = 0; i < nheld && i < NSALTN; i++) ref0[nref++] = MSTR_REF (held[i]);
 }
-static void ref_check (int n) {
+static int cache_clean;                       /* the last thing done to the apply cache was clear_apply_cache() */
+static int ref_check (int n) {
+  int drift = 0;
   clear_apply_cache ();
+  cache_clean = 1;
   for (int i = 0; i < nref; i++)
     if (MSTR_REF (held[i]) != ref0[i]) {
       char h[500], lt[80]; int k = 0, deep = 0;
@@ -757,10 +766,16 @@ static void ref_check (int n) {
       set_fail (deep ? "C07:history:name-refcount-drift-after-too-deep-recursion-in-apply" : "C07:history:name-refcount-drift",
                 "history [%s] then clear_apply_cache(): shared string \"%s\" has %d references, %d before the history", h, held[i], MSTR_REF (held[i]), ref0[i]);
       ref0[i] = MSTR_REF (held[i]);
+      drift = 1;
     }
+  return drift;
 }
-static void run_history (int n) {
-  clear_apply_cache ();
+static int want_canon;
+static char canon_buf[200000];
+static int run_history (int n) {
+  int drift = 0;
+  if (!cache_clean) clear_apply_cache ();
+  cache_clean = 0;
   for (int i = 0; i < n; i++) {
     char *obs = do_letter (seq[i]);
     n_calls++;
@@ -771,8 +786,28 @@ static void run_history (int n) {
       if ((l->org == O_CO || l->org == O_COLPC) && l->name == N_F) check_cold_letter (seq[i], obs, "after a history,");
     }
   }
-  if (nref) ref_check (n);
+  if (want_canon) vw_cache_canon (canon_buf, sizeof canon_buf);     /* before the reference check clears the cache */
+  if (nref) drift = ref_check (n);
   n_hist++;
+  return drift;
+}
+
+/* histories that contain a call_other issued at the maximum call depth (its frame does not fit: "Too deep recursion").
+   Explored last and abandoned at the first reference-count drift: from then on the string table is damaged. */
+static void deep_phase (int maxlen) {
+  for (int d = nL; d < nL + nD; d++) {
+    clear_apply_cache ();
+    cold[d] = strdup (do_letter (d));
+    seq[0] = d;
+    if (ref_check (1)) return;
+  }
+  for (int a = 0; a < nL; a++)
+    for (int d = nL; d < nL + nD; d++) {
+      seq[0] = a; seq[1] = d; if (run_history (2)) return;
+      seq[0] = d; seq[1] = a; if (run_history (2)) return;
+      if (maxlen >= 3)
+        for (int b = 0; b < nL; b++) { seq[0] = a; seq[1] = d; seq[2] = b; if (run_history (3)) return; }
+    }
 }
 static void enum_histories (int d, int maxlen) {
   for (int li = 0; li < nL; li++) {
@@ -787,10 +822,10 @@ typedef struct { uint64_t h; int len; int pre[8]; } cstate;
 static uint64_t fnv64 (const char *s) { uint64_t h = 1469598103934665603ULL; while (*s) { h ^= (unsigned char) *s++; h *= 1099511628211ULL; } return h; }
 static void explore_states (int depth) {
   static cstate st[20000]; int ns = 0, head = 0, cut = 0;
-  static char canon[200000];
   clear_apply_cache ();
-  vw_cache_canon (canon, sizeof canon);
-  st[ns].h = fnv64 (canon); st[ns].len = 0; ns++;
+  vw_cache_canon (canon_buf, sizeof canon_buf);
+  st[ns].h = fnv64 (canon_buf); st[ns].len = 0; ns++;
+  want_canon = 1;
   while (head < ns) {
     cstate cur = st[head++];
     for (int li = 0; li < nL; li++) {
@@ -798,8 +833,7 @@ static void explore_states (int depth) {
       seq[cur.len] = li;
       run_history (cur.len + 1);
       vx_count (6, 1);
-      vw_cache_canon (canon, sizeof canon);
-      uint64_t h = fnv64 (canon);
+      uint64_t h = fnv64 (canon_buf);
       int seen = 0;
       for (int k = 0; k < ns; k++) if (st[k].h == h) { seen = 1; break; }
       if (seen) continue;
@@ -807,6 +841,7 @@ static void explore_states (int depth) {
       else cut = 1;             /* a new cache content beyond the depth bound: not extended */
     }
   }
+  want_canon = 0;
   vx_count (5, ns);
   vx_count (9, !cut);
 }
@@ -909,15 +944,10 @@ static void elem (long idx) {
   if (!make_targets (pre1, blue)) return;
   /* calibrate the recursion count for the call_other-at-max-call-depth letters on g (public, same frame structure as f):
      n0 = least n for which deep_g(n) overflows (in the simul_efun call inside g); n0 + 1 overflows in apply_low's own push */
-  ndeep = 0;
-  if (opt_deep) {
-    for (int n = CONFIG_INT (__MAX_CALL_DEPTH__) - 8; n <= CONFIG_INT (__MAX_CALL_DEPTH__); n++) {
-      push_number (n); push_object (tob[0]);
-      svalue_t *r = hx_apply_origin (caller_ob, "deep_g", 2, ORIGIN_DRIVER);
-      if (!r && strstr (hx_last_error, "Too deep recursion")) { ndeep = n + 1; break; }
-    }
-    if (ndeep <= 0) vx_fail ("C07:harness:deep-calibration", "no recursion count overflows: %s", hx_last_error);
-  }
+  /* call_other-at-max-call-depth: apply(caller, "deep_f") takes one frame and the local recursion n more, so with
+     n = MaxCallDepth - 1 the frame apply_low() pushes for the callee is the one that does not fit (measured: n - 1 still
+     runs the callee and overflows in its simul_efun call) */
+  ndeep = CONFIG_INT (__MAX_CALL_DEPTH__) - 1;
   build_alphabet ();
 
   /* cold results */
@@ -991,10 +1021,12 @@ static void elem (long idx) {
   /* histories */
   n_hist = n_calls = 0;
   ref_snapshot ();
+  cache_clean = 0;
   if (selftest == 2) { free (cold[0]); cold[0] = strdup ("\"selftest-model\"|"); }
   if (opt_len > 0) enum_histories (0, opt_len);
   if (opt_prune > 8) opt_prune = 8;
   if (opt_prune > 0) explore_states (opt_prune);
+  if (nD && opt_len > 0) deep_phase (opt_len);
   vx_count (3, n_hist);
   vx_count (4, n_calls);
 }
